@@ -64,7 +64,7 @@ func runC19(w *World, r *Report, tier string) {
 			return
 		}
 		nPaths++
-		got := w.nfOn(ret.Results[0], path)
+		got := w.nfOn(rres(path, ret)[0], path)
 		forms = append(forms, got)
 		jitOff := pathAsserts(path, func(c ssa.Value, truth bool) bool {
 			f, _ := loadedField(c)
